@@ -15,9 +15,14 @@ from engine.harness import Run, Acc, par_explore
 from engine.interp import Interp
 from engine.values import Sym, SymReal
 
+from engine.harness import tier as _tier
 NAMES = ["FOO", "BAR"]
 ADDRS = [("h1", 1), ("h2", 2)]
 NEW_ADDR = ("h3", 3)
+if _tier() == "thorough":
+    # a third known name and a third known address: 2^9 membership patterns instead of 2^4
+    NAMES.append("BAZ")
+    ADDRS.append(("h4", 4))
 
 
 class Log(object):
@@ -246,8 +251,13 @@ clock.now = now
 s = make(registry.UDPRegistryServer, state, P)
 before = dict(state)
 bad = []
+def call(f, *a):
+    try:
+        return f(*a)
+    except Exception as e:
+        print("the command raised", repr(e)); print("REPRODUCED"); sys.exit(1)
 if cmd == "register":
-    addr = args["addr"]; r = s.cmd_register(addr[0], args["names"], addr[1])
+    addr = args["addr"]; r = call(s.cmd_register, addr[0], args["names"], addr[1])
     exp = dict(before); expn = []
     for nm in args["names"]:
         k = (nm.upper(), addr)
@@ -256,14 +266,14 @@ if cmd == "register":
     after = dict(((n, a), t) for n, d in s.services.items() for a, t in d.items())
     if r != "OK" or after != exp or sorted(notes) != sorted(expn): bad.append(("register", after, notes))
 elif cmd == "unregister":
-    addr = args["addr"]; r = s.cmd_unregister(addr[0], addr[1])
+    addr = args["addr"]; r = call(s.cmd_unregister, addr[0], addr[1])
     exp = dict((k, t) for k, t in before.items() if k[1] != addr)
     expn = [("removed", k[0], addr) for k in before if k[1] == addr]
     after = dict(((n, a), t) for n, d in s.services.items() for a, t in d.items())
     if r != "OK" or after != exp or sorted(notes) != sorted(expn): bad.append(("unregister", after, notes, "expected notifications", expn))
 else:
     NAME = args["name"].upper()
-    r = s.cmd_query("client", args["name"])
+    r = call(s.cmd_query, "client", args["name"])
     mine = dict((k[1], t) for k, t in before.items() if k[0] == NAME)
     live = sorted([a for a, t in mine.items() if t >= now - P], key=lambda a: mine[a])
     after = dict(((n, a), t) for n, d in s.services.items() for a, t in d.items())
